@@ -239,7 +239,7 @@ pub fn run(ctx: &Ctx) -> (Stats, Report) {
     // A: all dates x critical times
     let noon = pools::hms(12, 0, 0, 0) as i64;
     let fixed: Vec<i64> = vec![0, 1, noon - 1, noon, noon + 1, (US_PER_DAY - 1) as i64, pools::hms(11, 59, 0, 0) as i64, pools::hms(23, 59, 59, 0) as i64];
-    let nrand = if ctx.thorough { 40 } else { 4 };
+    let nrand = if ctx.thorough { 400 } else { 4 };
     let a = par_sweep(c.len() as u64, 1 << 13, |range, st| {
         for i in range {
             let r = &c.rows[i as usize];
